@@ -9,8 +9,28 @@ import VueJsx.Canon
 
 namespace VueJsx
 
+/-- declaration merging, as TypeScript defines it: every declaration of an interface contributes its members AND its
+    `extends` clause.  (Written here independently of the model's `ifaceHook`; `C16_spec_registry_is_the_models`
+    proves that the two coincide.) -/
+def specIfaceMerge (n : Node) (st : St) : St :=
+  match n with
+  | .mk .tsIface as [id, tp, .mk .list eas ext, .mk .tsIfaceBody bas [.mk .list las members]] =>
+    let key := (identName id, identBind id)
+    match lookupReg st.interfaces key with
+    | some (.mk .tsIface as0 [id0, tp0, .mk .list eas0 ext0, .mk .tsIfaceBody bas0 [.mk .list las0 members0]]) =>
+      let merged := Node.mk .tsIface as0 [id0, tp0, .mk .list eas0 (ext0 ++ ext), .mk .tsIfaceBody bas0 [.mk .list las0 (members0 ++ members)]]
+      { st with interfaces := st.interfaces.map fun p => if p.1 == key then (p.1, merged) else p }
+    | some _ => st
+    | none => { st with interfaces := st.interfaces ++ [(key, .mk .tsIface as [id, tp, .mk .list eas ext, .mk .tsIfaceBody bas [.mk .list las members]])] }
+  | _ => st
+
 /-- every alias and interface declaration of the module, anywhere, merged per (name, binding) -/
-def specRegistry (m : Node) : St := collectTypes m {}
+def specRegistry (m : Node) : St :=
+  (allNodes m).foldl (fun st d =>
+    match d with
+    | .mk .tsIface _ _ => specIfaceMerge d st
+    | .mk .tsAlias _ _ => aliasHook d st
+    | _ => st) {}
 
 structure PropSpec where
   key : Node                -- spelled as declared: identifier name, string or number
@@ -96,9 +116,10 @@ def propsOfType (fuel : Nat) (reg : St) (ty : Node) : PRes :=
         | some (.mk .tsIface _ [_, _, .mk .list _ ext, .mk .tsIfaceBody _ [.mk .list _ members]]) =>
           ext.foldl (fun acc p =>
             match p with
-            | .mk .tsExprWithTypeArgs _ (.mk .ident ias _ :: _) =>
-              acc.append (propsOfType fuel reg (.mk .tsTypeRef [] [.mk .ident ias [], nNone]))
-            | _ => .outside) (.ok (membersSpec members))
+            | .mk .tsExprWithTypeArgs _ [.mk .ident ias _, targs] =>
+              -- `extends B`, `extends Partial<B>`: the parent is the type reference written there, type arguments included
+              acc.append (propsOfType fuel reg (.mk .tsTypeRef [] [.mk .ident ias [], targs]))
+            | _ => acc.append .unresolved) (.ok (membersSpec members))   -- `extends NS.B`: unsupported, must be reported
         | some _ => .outside
         | none =>
           if b != "u" then .unresolved else      -- bound, but not a local type: imported from another module
@@ -274,8 +295,8 @@ def emitsOfType (fuel : Nat) (reg : St) (ty : Node) : Option (List String) :=
         | some (.mk .tsIface _ [_, _, .mk .list _ ext, .mk .tsIfaceBody _ [.mk .list _ members]]) =>
           ext.foldl (fun acc p =>
             match acc, p with
-            | some a, .mk .tsExprWithTypeArgs _ (.mk .ident ias _ :: _) =>
-              (emitsOfType fuel reg (.mk .tsTypeRef [] [.mk .ident ias [], nNone])).map (a ++ ·)
+            | some a, .mk .tsExprWithTypeArgs _ [.mk .ident ias _, targs] =>
+              (emitsOfType fuel reg (.mk .tsTypeRef [] [.mk .ident ias [], targs])).map (a ++ ·)
             | _, _ => none) (ofMembers members)
         | _ => none
     | _ => none
